@@ -301,15 +301,16 @@ Section HandlerProofs.
     | GMerging _ => True
     end.
 
-  Record hinv (s : hstate) : Prop := {
-    v_merge : merge_free s + merging s = cm;
-    v_req : req_free s + holding_req s = mr;
+  (* xm, xr: tokens held by Run's shutdown tail (0 while Run is not shutting down) *)
+  Record hinv (xm xr : nat) (s : hstate) : Prop := {
+    v_merge : merge_free s + merging s + xm = cm;
+    v_req : req_free s + holding_req s + xr = mr;
     v_reqs : Forall req_ok (reqs s);
     v_gors : Forall gor_ok (gors s);
     v_items : Permutation (items_received s) (items_held s)
   }.
 
-  Lemma hinv_init : hinv hinit.
+  Lemma hinv_init : hinv 0 0 hinit.
   Proof.
     split; cbn; try lia.
     - constructor; [|constructor]. unfold req_ok, nop; cbn. split; [exists []; reflexivity|].
@@ -360,7 +361,7 @@ Section HandlerProofs.
   Definition isM (g : gor) : bool := match g with GMerging _ => true | _ => false end.
   Definition isH (r : request) : bool := r_tok r && negb (r_released r).
 
-  Lemma hinv_step s l s' : hinv s -> hstep s l = Some s' -> hinv s'.
+  Lemma hinv_step xm xr s l s' : hinv xm xr s -> hstep s l = Some s' -> hinv xm xr s'.
   Proof.
     intros [Vm Vr Vrs Vgs Vit] Hs. unfold Forwarder.hstep in Hs.
     unfold merging, holding_req in *. fold isM in *. fold isH in *.
@@ -442,9 +443,9 @@ Section HandlerProofs.
           erewrite (map_upd_same r_part q); [exact Vit|exact Eq|reflexivity].
   Qed.
 
-  Lemma hinv_run ls s : run hstep hinit ls = Some s -> hinv s.
+  Lemma hinv_run ls s : run hstep hinit ls = Some s -> hinv 0 0 s.
   Proof.
-    intros H. refine (invariant_run hstep hinv _ ls hinit s hinv_init H).
+    intros H. refine (invariant_run hstep (hinv 0 0) _ ls hinit s hinv_init H).
     intros s0 l s1. apply hinv_step.
   Qed.
 End HandlerProofs.
@@ -476,7 +477,7 @@ Section HandlerStatements.
     merge_free s + merging s = cm /\ req_free s + holding_req s = mr
     /\ (at_rest s = true -> merge_free s = cm /\ req_free s = mr).
   Proof.
-    intros H. destruct (hinv_run _ _ _ _ _ _ H) as [Vm Vr _ _ _].
+    intros H. destruct (hinv_run _ _ _ _ _ _ H) as [Vm Vr _ _ _]. rewrite Nat.add_0_r in Vm, Vr.
     split; [exact Vm|]. split; [exact Vr|]. unfold at_rest. intros R.
     apply andb_prop in R as [R Hr]. apply andb_prop in R as [_ Hg].
     unfold merging, holding_req in *. fold isM in *. fold isH in *.
@@ -556,3 +557,480 @@ Proof. eexists. split; [reflexivity|]. split; reflexivity. Qed.
 Example post_no_attempt_after_success :
   run (post_step false) pinit [Construct true; Attempt Ok2xx; Attempt Ok2xx] = None.
 Proof. reflexivity. Qed.
+
+(* ------------------------------------------------------------------------------------------ *)
+(* the retry window *)
+Local Open Scope Z_scope.
+
+Definition tinv (window : Z) (s : tstate) : Prop :=
+  (p_phase (t_p s) = PNew -> t_created s = None)
+  /\ (p_phase (t_p s) <> PNew -> t_created s = Some (t_start s))
+  /\ (p_status (t_p s) = SDropped ->
+        exists now, t_decided s = Some now /\ stop_allowed window (now - t_start s) = true)
+  /\ (p_status (t_p s) <> SDropped -> t_decided s = None).
+
+Lemma post_step_shape c p l p' : post_step c p l = Some p' ->
+  match l with
+  | Construct _ => p_phase p = PNew /\ p_phase p' <> PNew /\ p_status p' <> SDropped
+  | Stop => p_phase p <> PNew /\ p_phase p' <> PNew /\ p_status p' = SDropped
+  | _ => p_phase p <> PNew /\ p_phase p' <> PNew /\ p_status p' <> SDropped
+  end.
+Proof.
+  unfold post_step. destruct (p_phase p) eqn:E, l as [[|]|[|]| | |]; try discriminate;
+    try (intros [= <-]; cbn; repeat split; congruence).
+  destruct c; [|discriminate]. destruct (p_hist p); [discriminate|]. intros [= <-]; cbn. repeat split; congruence.
+Qed.
+
+(* a pending or failed request carries no final status yet *)
+Lemma post_step_nonfinal c p l p' : post_step c p l = Some p' -> p_phase p <> PEnd.
+Proof. intros H E. rewrite (post_step_end _ _ _ E) in H. discriminate. Qed.
+
+Ltac tfin := repeat split; intros; try congruence; try contradiction; eauto.
+
+Lemma tinv_step c w h s l s' :
+  (exists pls, run (post_step c) pinit pls = Some (t_p s)) ->
+  tinv w s -> tstep false c w h s l = Some s' ->
+  (exists pls, run (post_step c) pinit pls = Some (t_p s')) /\ tinv w s'.
+Proof.
+  intros [pls Hp] (I1 & I2 & I3 & I4) Hs.
+  assert (Hext : forall pl p', post_step c (t_p s) pl = Some p' ->
+            exists pls', run (post_step c) pinit pls' = Some p').
+  { intros pl p' E. exists (pls ++ [pl]). rewrite run_app, Hp. cbn. rewrite E. reflexivity. }
+  assert (Hnd : forall pl p', post_step c (t_p s) pl = Some p' -> p_status (t_p s) <> SDropped).
+  { intros pl p' E Hd. pose proof (pwf_run _ _ _ Hp) as W. unfold pwf in W.
+    pose proof (post_step_nonfinal _ _ _ _ E) as Hne.
+    destruct (t_p s) as [ph st hh k]; cbn in *. subst st. destruct ph; try contradiction; congruence. }
+  unfold tstep in Hs. destruct l as [ok now|o|now|].
+  - destruct (post_step c (t_p s) (Construct ok)) as [p'|] eqn:E; [|discriminate]. injection Hs as <-.
+    split; [eauto|]. apply post_step_shape in E as (E1 & E2 & E3). unfold tinv; cbn. tfin.
+  - destruct (post_step c (t_p s) (Attempt o)) as [p'|] eqn:E; [|discriminate]. injection Hs as <-.
+    split; [eauto|]. pose proof (Hnd _ _ E) as Hn. apply post_step_shape in E as (E1 & E2 & E4).
+    unfold tinv; cbn. tfin.
+  - destruct (stop_allowed w (now - t_start s)) eqn:Esa.
+    + destruct (post_step c (t_p s) Stop) as [p'|] eqn:E; [|discriminate]. injection Hs as <-.
+      split; [eauto|]. apply post_step_shape in E as (E1 & E2 & E4). unfold tinv; cbn. tfin.
+    + destruct (post_step c (t_p s) Backoff) as [p'|] eqn:E; [|discriminate]. injection Hs as <-.
+      split; [eauto|]. pose proof (Hnd _ _ E) as Hn. apply post_step_shape in E as (E1 & E2 & E4).
+      unfold tinv; cbn. tfin.
+  - destruct (post_step c (t_p s) CtxDone) as [p'|] eqn:E; [|discriminate]. injection Hs as <-.
+    split; [eauto|]. pose proof (Hnd _ _ E) as Hn. apply post_step_shape in E as (E1 & E2 & E4).
+    unfold tinv; cbn. tfin.
+Qed.
+
+(* The post loop with the window explicit (current code: the policy is created per request).
+   Erasing the clock readings gives a run of the untimed post LTS, so retry_discipline applies to
+   t_p s; and a request is given up only by a NextBackOff call whose elapsed time, measured from the
+   start of this very request, exceeds the window by the library's rule. *)
+Theorem retry_window c w h ls s : run (tstep false c w h) tinit ls = Some s ->
+  (exists pls, run (post_step c) pinit pls = Some (t_p s))
+  /\ (p_status (t_p s) = SDropped ->
+        exists created now, t_created s = Some created /\ t_decided s = Some now
+                            /\ stop_allowed w (now - created) = true)
+  /\ (p_status (t_p s) <> SDropped -> t_decided s = None).
+Proof.
+  intros H.
+  assert (Hinv : (exists pls, run (post_step c) pinit pls = Some (t_p s)) /\ tinv w s).
+  { refine (invariant_run (tstep false c w h)
+              (fun s => (exists pls, run (post_step c) pinit pls = Some (t_p s)) /\ tinv w s) _ ls tinit s _ H).
+    - intros s0 l s1 [Hp Hi] Hs. eapply tinv_step; eauto.
+    - split; [exists []; reflexivity|]. unfold tinv; cbn. tfin. }
+  destruct Hinv as [Hp (I1 & I2 & I3 & I4)]. split; [exact Hp|]. split; [|exact I4].
+  intros Hd. destruct (I3 Hd) as (now & Hdec & Hsa). exists (t_start s), now.
+  split; [|auto]. apply I2. intros E. destruct Hp as [pls Hp]. pose proof (pwf_run _ _ _ Hp) as W.
+  unfold pwf in W. rewrite E, Hd in W. exact W.
+Qed.
+
+(* retries disabled (max-request-elapsed-time = -1): any elapsed time stops, i.e. the first failure
+   is final; a window of 0 (which the constructor rejects) would never stop *)
+Lemma stop_disabled el : 0 <= el -> stop_allowed (-1) el = true.
+Proof. intros H. unfold stop_allowed. cbn. apply Z.ltb_lt. lia. Qed.
+Lemma stop_never el : stop_allowed 0 el = false.
+Proof. reflexivity. Qed.
+
+(* The seeded variant (one policy built at handler creation, copied without Reset): the handler was
+   created at time 0 with a 2 s window; a request starts at 2.3 s, its first attempt fails and
+   NextBackOff is called 1 ms later.  The variant gives the body up at once although only 1 ms of its
+   window has passed; the current code, on the same script, retries. *)
+Definition legacy_script : list tlabel := [TConstruct true 2300000000; TAttempt Failed; TNext 2301000000].
+Theorem retry_window_legacy_refuted :
+  exists s created now,
+    run (tstep true false 2000000000 0) tinit legacy_script = Some s
+    /\ p_status (t_p s) = SDropped /\ p_hist (t_p s) = [Failed]
+    /\ t_created s = Some created /\ t_decided s = Some now
+    /\ stop_allowed 2000000000 (now - created) = false
+    /\ exists s', run (tstep false false 2000000000 0) tinit legacy_script = Some s'
+                  /\ p_phase (t_p s') = PTry /\ n_retried (p_ctr (t_p s')) = 1%nat /\ n_dropped (p_ctr (t_p s')) = 0%nat.
+Proof.
+  eexists. exists 2300000000, 2301000000. split; [vm_compute; reflexivity|]. cbn.
+  repeat split. eexists. split; [vm_compute; reflexivity|]. repeat split.
+Qed.
+Local Close Scope Z_scope.
+
+(* ------------------------------------------------------------------------------------------ *)
+(* flush notifications *)
+
+Lemma sum_upd {A} (f : A -> nat) n x y l : nth_error l n = Some y ->
+  list_sum (map f (upd n x l)) + f y = list_sum (map f l) + f x.
+Proof.
+  unfold list_sum. revert n. induction l as [|z l IH]; intros [|n]; cbn; try discriminate.
+  - intros [= ->]. lia.
+  - intros H. specialize (IH n H). lia.
+Qed.
+Lemma sum_snoc {A} (f : A -> nat) l x : list_sum (map f (l ++ [x])) = list_sum (map f l) + f x.
+Proof. rewrite map_app, list_sum_app. cbn. lia. Qed.
+Lemma del_length {A} j (l : list A) y : nth_error l j = Some y -> S (length (del j l)) = length l.
+Proof.
+  revert j. induction l as [|z l IH]; intros [|j]; cbn; try discriminate; [reflexivity|].
+  intros H. rewrite (IH j H). reflexivity.
+Qed.
+
+Section Notifications.
+  Variable cm mr : nat.
+  Variable dyn : list str.
+  Variable utf8ok : str -> bool.
+  Notation hstep := (hstep cm mr dyn utf8ok).
+  Notation hinit := (hinit cm mr).
+
+  Definition ninv (s : hstate) : Prop := notified s + notif_pending dyn s = notif_total dyn s.
+
+  Ltac prj := cbn [loop gors reqs notified received merge_free req_free gor_owes] in *.
+
+  Lemma ninv_step s l s' : ninv s -> hstep s l = Some s' -> ninv s'.
+  Proof.
+    unfold ninv, notif_pending, notif_total, holding_req. fold isH. intros N Hs.
+    unfold Forwarder.hstep in Hs. destruct l as [ms| |g|g j|g j|q pl|q].
+    - destruct (loop s) eqn:El; [discriminate|]. destruct (nop_returned s); [|discriminate]. injection Hs as <-.
+      prj. rewrite sum_snoc. lia.
+    - destruct (loop s) as [ms|] eqn:El; [|discriminate]. destruct (merge_free s); [discriminate|].
+      injection Hs as <-. prj. rewrite sum_snoc. prj. lia.
+    - destruct (nth_error (gors s) g) as [[ms|parts]|] eqn:Eg; try discriminate.
+      destruct (merge_free s <? cm)%nat; [|discriminate]. injection Hs as <-. prj.
+      pose proof (sum_upd (gor_owes dyn) g (GPosting (bag_split dyn (concat ms))) _ _ Eg) as H. prj.
+      unfold parts_of in *. lia.
+    - destruct (nth_error (gors s) g) as [[ms|parts]|] eqn:Eg; try discriminate.
+      destruct (nth_error parts j) as [[pk [|it p]]|] eqn:Ej; try discriminate. injection Hs as <-. prj.
+      pose proof (sum_upd (gor_owes dyn) g (GPosting (del j parts)) _ _ Eg) as H. prj.
+      pose proof (del_length _ _ _ Ej). lia.
+    - destruct (nth_error (gors s) g) as [[ms|parts]|] eqn:Eg; try discriminate.
+      destruct (nth_error parts j) as [[pk [|it p]]|] eqn:Ej; try discriminate.
+      destruct (req_free s); [discriminate|]. injection Hs as <-. prj.
+      pose proof (sum_upd (gor_owes dyn) g (GPosting (del j parts)) _ _ Eg) as H. prj.
+      pose proof (del_length _ _ _ Ej). rewrite filter_snoc_len.
+      change (b2n (isH (Req pk (it :: p) true false pinit))) with 1. lia.
+    - destruct (nth_error (reqs s) q) as [r|] eqn:Eq; [|discriminate].
+      destruct (post_step (negb (r_tok r)) (r_post r) pl) as [p'|]; [|discriminate].
+      destruct (match pl with Construct ok => _ | _ => true end); [|discriminate]. injection Hs as <-. prj.
+      pose proof (filter_upd_len isH q (Req (r_key r) (r_part r) (r_tok r) (r_released r) p') _ _ Eq) as H.
+      assert (E : isH (Req (r_key r) (r_part r) (r_tok r) (r_released r) p') = isH r) by reflexivity.
+      rewrite E in H. lia.
+    - destruct (nth_error (reqs s) q) as [r|] eqn:Eq; [|discriminate].
+      destruct (p_phase (r_post r)); try discriminate. destruct (r_released r) eqn:Erel; [discriminate|].
+      pose proof (filter_upd_len isH q (Req (r_key r) (r_part r) (r_tok r) true (r_post r)) _ _ Eq) as Hlen.
+      assert (E1 : isH (Req (r_key r) (r_part r) (r_tok r) true (r_post r)) = false)
+        by (unfold isH; cbn; apply andb_false_r).
+      assert (E2 : isH r = r_tok r) by (unfold isH; rewrite Erel; apply andb_true_r).
+      rewrite E1, E2 in Hlen. destruct (r_tok r).
+      + destruct (req_free s <? mr)%nat; [|discriminate]. injection Hs as <-. prj. cbn [b2n] in Hlen. lia.
+      + injection Hs as <-. prj. cbn [b2n] in Hlen. lia.
+  Qed.
+
+  Lemma rest_nothing_owed gs :
+    forallb (λ g, match g with GPosting [] => true | _ => false end) gs = true ->
+    list_sum (map (gor_owes dyn) gs) = 0.
+  Proof.
+    induction gs as [|g gs IH]; cbn; [auto|]. intros H. apply andb_prop in H as [Hg Hr].
+    destruct g as [ms|[|kp parts]]; try discriminate. cbn. exact (IH Hr).
+  Qed.
+
+  (* every NotifyFlush is accounted for: calls made + calls still to come = the number of parts of
+     all flushes read so far; at rest exactly that many calls have been made *)
+  Theorem notifications_count ls s : run hstep hinit ls = Some s ->
+    notified s + notif_pending dyn s = notif_total dyn s
+    /\ (at_rest s = true -> notified s = notif_total dyn s).
+  Proof.
+    intros H. assert (N : ninv s).
+    { refine (invariant_run hstep ninv _ ls hinit s _ H); [intros s0 l s1; apply ninv_step|reflexivity]. }
+    split; [exact N|]. unfold at_rest. intros R.
+    apply andb_prop in R as [R Hr]. apply andb_prop in R as [Hl Hg].
+    unfold ninv, notif_pending, holding_req in N. fold isH in N.
+    rewrite (rest_nothing_owed _ Hg), (rest_no_holding _ Hr) in N. destruct (loop s); [discriminate|]. cbn in N. lia.
+  Qed.
+End Notifications.
+
+(* how many parts a flush has *)
+Lemma parts_of_nodyn ms : parts_of [] ms = 1.
+Proof. reflexivity. Qed.
+Lemma parts_of_dyn n dyn ms :
+  parts_of (n :: dyn) ms = length (remove_dups (item_pkey (n :: dyn) <$> concat ms)).
+Proof. unfold parts_of, bag_split. rewrite map_length. reflexivity. Qed.
+
+(* without dynamic headers: exactly one NotifyFlush per flush, empty or not *)
+Theorem one_notification_per_flush cm mr utf8ok ls s :
+  run (hstep cm mr [] utf8ok) (hinit cm mr) ls = Some s ->
+  at_rest s = true -> notified s = length (received s).
+Proof.
+  intros H R. rewrite (proj2 (notifications_count _ _ _ _ _ _ H) R). unfold notif_total, list_sum.
+  induction (received s) as [|ms l IH]; cbn; [reflexivity|]. f_equal. exact IH.
+Qed.
+
+(* with dynamic headers: one per distinct header key among the flush's series -- none at all for an
+   empty flush, several when the series carry different values *)
+Theorem notifications_dynamic cm mr n dyn utf8ok ls s :
+  run (hstep cm mr (n :: dyn) utf8ok) (hinit cm mr) ls = Some s ->
+  at_rest s = true ->
+  notified s = list_sum (map (λ ms, length (remove_dups (item_pkey (n :: dyn) <$> concat ms))) (received s))
+  /\ parts_of (n :: dyn) [] = 0.
+Proof.
+  intros H R. split; [|reflexivity]. rewrite (proj2 (notifications_count _ _ _ _ _ _ H) R). unfold notif_total.
+  f_equal. apply map_ext. intros ms. apply parts_of_dyn.
+Qed.
+
+(* ------------------------------------------------------------------------------------------ *)
+(* shutdown *)
+
+Lemma nth_error_upd {A} n (x : A) l m r : nth_error (upd n x l) m = Some r ->
+  (n = m /\ r = x /\ exists y, nth_error l n = Some y) \/ nth_error l m = Some r.
+Proof.
+  revert n m. induction l as [|z l IH]; intros [|n] [|m]; cbn; try discriminate; auto.
+  - intros [= <-]. left. eauto.
+  - intros H. destruct (IH n m H) as [(-> & -> & Hy)|H']; auto.
+Qed.
+Lemma nth_error_snoc {A} (l : list A) x m r : nth_error (l ++ [x]) m = Some r ->
+  nth_error l m = Some r \/ r = x.
+Proof.
+  revert m. induction l as [|z l IH]; intros [|m]; cbn; auto.
+  - intros [= <-]; auto.
+  - destruct m; discriminate.
+Qed.
+
+Section Shutdown.
+  Variable cm mr : nat.
+  Variable dyn : list str.
+  Variable utf8ok : str -> bool.
+  Notation hstep := (hstep cm mr dyn utf8ok).
+  Notation rstep := (rstep cm mr dyn utf8ok).
+  Notation rinit := (rinit cm mr).
+
+  (* only the start-up nop (request 0) runs without a token *)
+  Definition tok_inv (h : hstate) : Prop := forall q r, nth_error (reqs h) (S q) = Some r -> r_tok r = true.
+
+  Lemma tok_step h l h' : tok_inv h -> reqs h <> [] -> hstep h l = Some h' -> tok_inv h' /\ reqs h' <> [].
+  Proof.
+    unfold tok_inv. intros T Hne Hs. unfold Forwarder.hstep in Hs.
+    destruct l as [ms| |g|g j|g j|q pl|q].
+    - destruct (loop h); [discriminate|]. destruct (nop_returned h); [|discriminate]. injection Hs as <-. auto.
+    - destruct (loop h); [|discriminate]. destruct (merge_free h); [discriminate|]. injection Hs as <-. auto.
+    - destruct (nth_error (gors h) g) as [[ms|parts]|]; try discriminate.
+      destruct (merge_free h <? cm)%nat; [|discriminate]. injection Hs as <-. auto.
+    - destruct (nth_error (gors h) g) as [[ms|parts]|]; try discriminate.
+      destruct (nth_error parts j) as [[pk [|it p]]|]; try discriminate. injection Hs as <-. auto.
+    - destruct (nth_error (gors h) g) as [[ms|parts]|]; try discriminate.
+      destruct (nth_error parts j) as [[pk [|it p]]|]; try discriminate.
+      destruct (req_free h); [discriminate|]. injection Hs as <-. cbn [reqs]. split.
+      + intros q r Hr. apply nth_error_snoc in Hr as [Hr| ->]; [eauto|reflexivity].
+      + destruct (reqs h); [contradiction|discriminate].
+    - destruct (nth_error (reqs h) q) as [r0|] eqn:Eq; [|discriminate].
+      destruct (post_step _ _ pl) as [p'|]; [|discriminate].
+      destruct (match pl with Construct ok => _ | _ => true end); [|discriminate]. injection Hs as <-. cbn [reqs]. split.
+      + intros m r Hr. apply nth_error_upd in Hr as [(Eqm & -> & _)|Hr]; [cbn; subst q; exact (T m r0 Eq)|eauto].
+      + destruct (reqs h), q; cbn; try contradiction; discriminate.
+    - destruct (nth_error (reqs h) q) as [r0|] eqn:Eq; [|discriminate].
+      destruct (p_phase (r_post r0)); try discriminate. destruct (r_released r0); [discriminate|].
+      assert (Hu : tok_inv (H (merge_free h) (req_free h) (loop h) (gors h)
+                              (upd q (Req (r_key r0) (r_part r0) (r_tok r0) true (r_post r0)) (reqs h)) 0 [])
+                   /\ upd q (Req (r_key r0) (r_part r0) (r_tok r0) true (r_post r0)) (reqs h) <> []).
+      { split.
+        - intros m r Hr. cbn [reqs] in Hr. apply nth_error_upd in Hr as [(Eqm & -> & _)|Hr]; [cbn; subst q; exact (T m r0 Eq)|eauto].
+        - destruct (reqs h), q; cbn; try contradiction; discriminate. }
+      destruct (r_tok r0).
+      + destruct (req_free h <? mr)%nat; [|discriminate]. injection Hs as <-. exact Hu.
+      + injection Hs as <-. exact Hu.
+  Qed.
+
+  Lemma nop_returned_step h l h' : nop_returned h = true -> hstep h l = Some h' -> nop_returned h' = true.
+  Proof.
+    unfold nop_returned. intros N Hs. unfold Forwarder.hstep in Hs.
+    destruct l as [ms| |g|g j|g j|q pl|q].
+    - destruct (loop h); [discriminate|]. destruct (nop_returned h); [|discriminate].
+      injection Hs as <-. exact N.
+    - destruct (loop h); [|discriminate]. destruct (merge_free h); [discriminate|]. injection Hs as <-. exact N.
+    - destruct (nth_error (gors h) g) as [[ms|parts]|]; try discriminate.
+      destruct (merge_free h <? cm)%nat; [|discriminate]. injection Hs as <-. exact N.
+    - destruct (nth_error (gors h) g) as [[ms|parts]|]; try discriminate.
+      destruct (nth_error parts j) as [[pk [|it p]]|]; try discriminate. injection Hs as <-. exact N.
+    - destruct (nth_error (gors h) g) as [[ms|parts]|]; try discriminate.
+      destruct (nth_error parts j) as [[pk [|it p]]|]; try discriminate.
+      destruct (req_free h); [discriminate|]. injection Hs as <-. cbn. destruct (reqs h); [discriminate|exact N].
+    - destruct (nth_error (reqs h) q) as [r0|] eqn:Eq; [|discriminate].
+      destruct (post_step _ _ pl) as [p'|]; [|discriminate].
+      destruct (match pl with Construct ok => _ | _ => true end); [|discriminate]. injection Hs as <-. cbn.
+      destruct (reqs h) as [|r1 rs]; [discriminate|]. destruct q; cbn in *; [injection Eq as ->; exact N|exact N].
+    - destruct (nth_error (reqs h) q) as [r0|] eqn:Eq; [|discriminate].
+      destruct (p_phase (r_post r0)); try discriminate. destruct (r_released r0); [discriminate|].
+      assert (Hu : match upd q (Req (r_key r0) (r_part r0) (r_tok r0) true (r_post r0)) (reqs h) with
+                   | [] => false | r :: _ => r_released r end = true).
+      { destruct (reqs h) as [|r1 rs]; [discriminate|]. destruct q; cbn; [reflexivity|exact N]. }
+      destruct (r_tok r0).
+      + destruct (req_free h <? mr)%nat; [|discriminate]. injection Hs as <-. exact Hu.
+      + injection Hs as <-. exact Hu.
+  Qed.
+
+  Lemma done_nth gs g x :
+    forallb (λ g, match g with GPosting [] => true | _ => false end) gs = true ->
+    nth_error gs g = Some x -> x = GPosting [].
+  Proof.
+    intros H Hn. apply nth_error_In in Hn. rewrite forallb_forall in H. specialize (H x Hn).
+    destruct x as [ms|[|kp parts]]; try discriminate. reflexivity.
+  Qed.
+
+  (* once every flush goroutine has finished and the sink is closed, nothing starts again *)
+  Lemma flushes_done_step h l h' : flushes_done h = true -> hstep h l = Some h' ->
+    (forall ms, l <> SinkRecv ms) -> flushes_done h' = true.
+  Proof.
+    unfold flushes_done. intros D Hs Hl. apply andb_prop in D as [Dl Dg].
+    destruct (loop h) eqn:El; [discriminate|]. unfold Forwarder.hstep in Hs.
+    destruct l as [ms| |g|g j|g j|q pl|q].
+    - destruct (Hl ms eq_refl).
+    - rewrite El in Hs. discriminate.
+    - destruct (nth_error (gors h) g) as [x|] eqn:Eg; [|discriminate]. rewrite (done_nth _ _ _ Dg Eg) in Hs. discriminate.
+    - destruct (nth_error (gors h) g) as [x|] eqn:Eg; [|discriminate]. rewrite (done_nth _ _ _ Dg Eg) in Hs.
+      destruct j; discriminate.
+    - destruct (nth_error (gors h) g) as [x|] eqn:Eg; [|discriminate]. rewrite (done_nth _ _ _ Dg Eg) in Hs.
+      destruct j; discriminate.
+    - destruct (nth_error (reqs h) q) as [r0|]; [|discriminate].
+      destruct (post_step _ _ pl) as [p'|]; [|discriminate].
+      destruct (match pl with Construct ok => _ | _ => true end); [|discriminate]. injection Hs as <-. cbn.
+      rewrite El, Dg. reflexivity.
+    - destruct (nth_error (reqs h) q) as [r0|]; [|discriminate].
+      destruct (p_phase (r_post r0)); try discriminate. destruct (r_released r0); [discriminate|].
+      destruct (r_tok r0).
+      + destruct (req_free h <? mr)%nat; [|discriminate]. injection Hs as <-. cbn. rewrite El, Dg. reflexivity.
+      + injection Hs as <-. cbn. rewrite El, Dg. reflexivity.
+  Qed.
+
+  Record rinv (patched : bool) (s : rstate) : Prop := {
+    w_h : hinv cm mr dyn utf8ok (r_tmerge s) (r_treq s) (r_h s);
+    w_tok : tok_inv (r_h s) /\ reqs (r_h s) <> [];
+    w_open : r_closed s = false -> r_treq s = 0 /\ r_tmerge s = 0 /\ r_returned s = false;
+    w_nop : r_closed s = true -> nop_returned (r_h s) = true;
+    w_tail : patched = true -> 0 < r_treq s -> flushes_done (r_h s) = true;
+    w_ret : r_returned s = true -> r_treq s = mr /\ r_tmerge s = cm
+  }.
+
+  Lemma rinv_init patched : rinv patched rinit.
+  Proof.
+    split; cbn; auto; try lia; try discriminate.
+    - apply hinv_init.
+    - split; [|discriminate]. intros q r Hr. destruct q; discriminate.
+  Qed.
+
+  Lemma rinv_step patched s l s' : rinv patched s -> rstep patched s l = Some s' -> rinv patched s'.
+  Proof.
+    intros [Wh Wt Wo Wn Wtl Wr] Hs. unfold Forwarder.rstep in Hs. destruct l as [hl| | | |].
+    - assert (Hd : hstep (r_h s) hl = None \/ exists h', hstep (r_h s) hl = Some h'
+                     /\ s' = R h' (r_closed s) (r_treq s) (r_tmerge s) (r_returned s)
+                     /\ (r_closed s = true -> forall ms, hl <> SinkRecv ms)).
+      { destruct (hstep (r_h s) hl) as [h'|] eqn:E; [|auto]. right. exists h'. split; [reflexivity|].
+        destruct hl, (r_closed s); try discriminate; injection Hs as <-; split; auto; intros _ ms; discriminate. }
+      destruct Hd as [E|(h' & E & -> & Hns)].
+      { destruct hl, (r_closed s); rewrite ?E in Hs; discriminate. }
+      split; cbn.
+      + eapply hinv_step; eauto.
+      + destruct Wt as [T Hne]. eapply tok_step; eauto.
+      + exact Wo.
+      + intros C. eapply nop_returned_step; eauto.
+      + intros P Hq. eapply flushes_done_step; eauto. apply Hns.
+        destruct (r_closed s) eqn:C; [reflexivity|]. destruct (Wo eq_refl) as (Z & _). lia.
+      + exact Wr.
+    - destruct (negb (r_closed s) && nop_returned (r_h s)) eqn:E; [|discriminate]. injection Hs as <-.
+      apply andb_prop in E as [Ec En]. apply negb_true_iff in Ec. destruct (Wo Ec) as (Z1 & Z2 & Z3).
+      split; cbn; auto; try discriminate.
+    - destruct (req_free (r_h s)) as [|n] eqn:Ef; [discriminate|].
+      destruct (r_closed s && match loop (r_h s) with None => true | _ => false end
+                && (negb patched || flushes_done (r_h s)) && (r_treq s <? mr)%nat) eqn:E; [|discriminate].
+      injection Hs as <-. apply andb_prop in E as [E E4]. apply andb_prop in E as [E E3]. apply andb_prop in E as [E1 E2].
+      destruct Wh as [Vm Vr Vrs Vgs Vit]. split; cbn.
+      + split; cbn; auto. unfold holding_req in *; cbn. lia.
+      + exact Wt.
+      + discriminate.
+      + intros _. apply Wn, E1.
+      + intros -> _. cbn in E3. unfold flushes_done in *. cbn. exact E3.
+      + intros Hr. destruct (Wr Hr) as [Hq _]. apply Nat.ltb_lt in E4. lia.
+    - destruct (merge_free (r_h s)) as [|n] eqn:Ef; [discriminate|].
+      destruct (r_closed s && (r_treq s =? mr)%nat && (r_tmerge s <? cm)%nat) eqn:E; [|discriminate].
+      injection Hs as <-. apply andb_prop in E as [E E3]. apply andb_prop in E as [E1 E2].
+      destruct Wh as [Vm Vr Vrs Vgs Vit]. split; cbn.
+      + split; cbn; auto. unfold merging in *; cbn. lia.
+      + exact Wt.
+      + discriminate.
+      + intros _. apply Wn, E1.
+      + intros P Hq. specialize (Wtl P Hq). unfold flushes_done in *. cbn. exact Wtl.
+      + intros Hr. destruct (Wr Hr) as [_ Hq]. apply Nat.ltb_lt in E3. lia.
+    - destruct (r_closed s && (r_treq s =? mr)%nat && (r_tmerge s =? cm)%nat) eqn:E; [|discriminate].
+      injection Hs as <-. apply andb_prop in E as [E E3]. apply andb_prop in E as [E1 E2].
+      apply Nat.eqb_eq in E2, E3. split; cbn; auto; try discriminate.
+  Qed.
+
+  (* With the WaitGroup patch: when Run has returned, nothing is left behind -- every item ever read
+     from the sink is in a request that has ended (sent, dropped or invalid and counted as such). *)
+  Theorem shutdown_patched_complete ls s : 0 < mr ->
+    run (rstep true) rinit ls = Some s -> r_returned s = true ->
+    at_rest (r_h s) = true
+    /\ Permutation (items_received (r_h s)) (concat (map r_part (reqs (r_h s))))
+    /\ Forall (λ r, p_phase (r_post r) = PEnd) (reqs (r_h s)).
+  Proof.
+    intros Hmr H Hret.
+    assert (W : rinv true s).
+    { refine (invariant_run (rstep true) (rinv true) _ ls rinit s (rinv_init true) H).
+      intros s0 l s1. apply rinv_step. }
+    destruct W as [Wh [T Hne] Wo Wn Wtl Wr]. destruct (Wr Hret) as [Hq Hm].
+    assert (Hc : r_closed s = true).
+    { destruct (r_closed s) eqn:C; [reflexivity|]. destruct (Wo eq_refl) as (_ & _ & Z). congruence. }
+    assert (D : flushes_done (r_h s) = true) by (apply Wtl; [reflexivity|lia]).
+    destruct Wh as [Vm Vr Vrs Vgs Vit].
+    assert (Hhold : List.filter isH (reqs (r_h s)) = []).
+    { unfold holding_req in Vr. fold isH in Vr. destruct (List.filter isH (reqs (r_h s))); [reflexivity|cbn in Vr; lia]. }
+    assert (Hrel : forallb r_released (reqs (r_h s)) = true).
+    { apply forallb_forall. intros r Hin. apply In_nth_error in Hin as [m Hm'].
+      destruct m as [|q].
+      - specialize (Wn Hc). unfold nop_returned in Wn. destruct (reqs (r_h s)); [discriminate|].
+        cbn in Hm'. injection Hm' as <-. exact Wn.
+      - pose proof (T q r Hm') as Ht. apply nth_error_In in Hm'.
+        assert (Hf : isH r = false).
+        { destruct (isH r) eqn:E; [|reflexivity]. exfalso.
+          assert (In r (List.filter isH (reqs (r_h s)))) by (apply List.filter_In; auto).
+          rewrite Hhold in H0. destruct H0. }
+        unfold isH in Hf. rewrite Ht in Hf. cbn in Hf. apply negb_false_iff in Hf. exact Hf. }
+    assert (R : at_rest (r_h s) = true).
+    { unfold at_rest, flushes_done in *. rewrite D, Hrel. reflexivity. }
+    split; [exact R|]. unfold flushes_done in D. apply andb_prop in D as [Dl Dg]. split.
+    - rewrite Vit. unfold items_held. destruct (loop (r_h s)); [discriminate|]. nofmap.
+      rewrite (proj2 (rest_no_merging _ Dg)). reflexivity.
+    - apply List.Forall_forall. intros r Hin. rewrite List.Forall_forall in Vrs.
+      destruct (Vrs r Hin) as (_ & Hrl & _). apply Hrl. rewrite forallb_forall in Hrel. exact (Hrel r Hin).
+  Qed.
+End Shutdown.
+
+(* The boundary of C15: cancellation right after a flush.  One flush carrying item sd_x has been
+   read from the sink and its goroutine started; the context is cancelled; Run's tail takes the only
+   request token before the goroutine asks for it, then the merging token, and Run returns.  sd_x is
+   in no request, no counter mentions it, the goroutine can never post (no token is free and nobody
+   holds one).  With the WaitGroup patch the same schedule is not a run: the tail cannot start. *)
+Definition sd_x : item := Item 0 [97%N] [] [].
+Definition sd_run : list rlabel :=
+  [RH (ReqStep 0 (Construct true)); RH (ReqStep 0 (Attempt Ok2xx)); RH (Release 0);
+   RH (SinkRecv [[sd_x]]); RH LoopSpawn; RClose; RTailReq; RH (MergeSplit 0); RTailMerge; RReturn].
+
+Theorem shutdown_refuted :
+  exists s, run (rstep 1 1 [] (λ _, true) false) (rinit 1 1) sd_run = Some s
+    /\ r_returned s = true
+    /\ In sd_x (items_received (r_h s))
+    /\ ~ In sd_x (concat (map r_part (reqs (r_h s))))
+    /\ gors (r_h s) = [GPosting [([], [sd_x])]]
+    /\ req_free (r_h s) = 0 /\ holding_req (r_h s) = 0
+    /\ rstep 1 1 [] (λ _, true) false s (RH (PartPost 0 0)) = None
+    /\ hcounters (r_h s) = Ctr 1 1 0 0 0
+    /\ run (rstep 1 1 [] (λ _, true) true) (rinit 1 1) sd_run = None.
+Proof.
+  eexists. split; [vm_compute; reflexivity|]. vm_compute. repeat split; auto; try (intros [E|[]]; discriminate).
+Qed.
